@@ -26,7 +26,7 @@ CHECKS = {
              "three more times by the same program node inside a loop, pairs of expressions share one loop body, and a fixed probe program checks "
              "afterwards that null, isnull(null), typeof(null) and all variables still mean the same. The space is finite and enumerated completely."
              ' Also: relational operators with table and tuple operands, boolean-declared functions returning the untyped null or falling off their end, boolean variables reset inside while / if; the space is explored against the clang sanitizer build and the gcc -O2 build.'
-             ' The result of a comparison with a null side must be a *boolean* null (typeof, combination with or / and / not / xor); the iterator left by a forall is an atom and is probed after every case. The null literal as receiver of in-place members, evaluated repeatedly by the same node.',
+             ' The result of a comparison with a null side must be a *boolean* null (typeof, combination with or / and / not / xor); the iterator left by a forall is an atom and is probed after every case. The null literal as receiver of in-place members, evaluated repeatedly by the same node. Round 5: every atom against a partner that changes between six evaluations of the same node.',
         note="trusted: Kleene tables, print formatting of TRUE/FALSE/null; conditions of undefined static type refused at compile time are not counted",
         design="DESIGN.md section 4, C04"),
     "C06": dict(
@@ -40,7 +40,7 @@ CHECKS = {
              "from non-termination; probe statements then check in the same context that no iterator constraint, table lock, pending break/continue, control "
              "entry or block level is left behind."
              ' Added: bodies that change the variables the bounds and the step were taken from (evaluated once); every if / elsif / else chain of <= 3 rules over {true, false, null} at top level, in a loop and in a function; the header family also against the gcc -O2 build.'
-             ' break / continue where no loop of the same function or program runs (10 programs, C++ and C API routes). Mutators reached through a path expression (tt.at(0)) while a row of tt, or tt itself, is iterated: refused, table unchanged, modifiable afterwards.',
+             ' break / continue where no loop of the same function or program runs (10 programs, C++ and C API routes). Mutators reached through a path expression (tt.at(0)) while a row of tt, or tt itself, is iterated: refused, table unchanged, modifiable afterwards. Round 5: forall over 10 kinds of table expression x 3 orders x 4 lengths x 3 bodies.',
         note="trusted: the reference interpreter (structured semantics of the manual), the step budget (200000 statements) as the non-termination verdict",
         design="DESIGN.md section 4, C06"),
     "C07": dict(
@@ -53,7 +53,7 @@ CHECKS = {
              "handler runs, error@1/@2, the printed trace and the error number/text reported to the host. The program is then run a second time, a top-level "
              "break/continue must not swallow the next statement, and probe statements check that no loop, iterator constraint, table lock, pending "
              "break/continue/return or block level survived."
-             ' Added payloads: user names that only start like a clause name or that clause names start with; a while condition that fails at its second evaluation after a turn that ended with continue. Every residue program also started through bloc_execute2 (route capi2).',
+             ' Added payloads: user names that only start like a clause name or that clause names start with; a while condition that fails at its second evaluation after a turn that ended with continue. Every residue program also started through bloc_execute2 (route capi2). Round 5: error names of 18 lengths from 1 to 1000 characters (around the 256-byte message buffer) in 5 handler layouts.',
         note="trusted: the reference interpreter vf/ctl.py; the interactive statement loop of the bloc command is covered by the C19 check",
         design="DESIGN.md section 4, C07"),
     "C01": dict(
@@ -67,7 +67,7 @@ CHECKS = {
              "bloc command (file and stdin). Oracle: the outcome is completion, a parse error or a runtime error; no signal, no ASan/UBSan report, no "
              "foreign exception, no step-budget hit without a loop, no CPU-watchdog hang."
              ' Added families: every outer loop form x inner construct locking the same table x mutation of the iterated table x use of the iterator (1200 programs); scripts that read standard input (readln, read, input) x inputs sized around the internal buffers through the bloc command.'
-             ' Round 3: the same vocabulary with every operand handed over through an untyped function parameter (only run-time guards apply), tables of every element type in the alphabet.',
+             ' Round 3: the same vocabulary with every operand handed over through an untyped function parameter (only run-time guards apply), tables of every element type in the alphabet. Round 5: 27 valid and malformed patterns of matches; opaque operands on either side of every two-argument built-in in quick.',
         note="trusted: clang 14 ASan+UBSan; size arguments capped at 65536 (allocation exhaustion is outside the property's domain); texts outside the alphabets are not covered",
         design="DESIGN.md section 4, C01"),
     "C08": dict(
@@ -82,7 +82,7 @@ CHECKS = {
              "earlier deep or failed recursions) must succeed up to 255 nested calls and raise the recursion-limit error at the 256th, and LeakSanitizer "
              "must be silent after histories containing failing calls."
              ' Added: calls nested in their own argument lists in the call alphabets, the same callee reached at several nesting levels, recursion-limit probes below k+1 levels of another function after earlier calls at other levels.'
-             ' Calls as the operand of a program-level return; a function defined again after its earlier definition was called (6 x 6 bodies x 4 histories); error@1 outside handlers after a call whose handler raised; a built-in that fails at the second evaluation of an argument.',
+             ' Calls as the operand of a program-level return; a function defined again after its earlier definition was called (6 x 6 bodies x 4 histories); error@1 outside handlers after a call whose handler raised; a built-in that fails at the second evaluation of an argument. Round 5: a redefinition arriving in a text that calls the function first, or that is rejected; arguments of one call that change each other\'s variables.',
         note="trusted: hand-written expected value per call, LeakSanitizer; histories longer than the bound are not covered",
         design="DESIGN.md section 4, C08"),
     "C10": dict(
@@ -96,7 +96,7 @@ CHECKS = {
              "through the API and re-dumped after the calls (must be unchanged); results are read as hex. Reference: Python bytes operations, base64 and DJB "
              "hash where the manual defines the value; otherwise totality, memory safety and the stated relations."
              ' Added: numeric edge strings, separators containing NUL, an in-place method chained on the result of every built-in with the arguments compared afterwards; the quick space also against the gcc -O2 build.'
-             ' hex(value, width) over a 14 x 23 lattice with a model (the width is a digit count, not an allocation). Provenance: every string built-in with its argument as variable vs temporary / function result / table element / nested built-in must agree.',
+             ' hex(value, width) over a 14 x 23 lattice with a model (the width is a digit count, not an allocation). Provenance: every string built-in with its argument as variable vs temporary / function result / table element / nested built-in must agree. Round 5: int() of every string of decimal digits against a model; all 255 byte values through every unary built-in.',
         note="trusted: Python bytes/base64 as reference; C locale; trim family only required to strip spaces and nothing but whitespace; hash of bytes >= 0x80 only required to be deterministic",
         design="DESIGN.md section 4, C10"),
     "C09": dict(
@@ -112,7 +112,7 @@ CHECKS = {
              "tuple declarations of <=3 (quick, neighbourhood) / <=4 (thorough, all pairs) items over 6 item types are checked pairwise for type identity, "
              "and every mutator of a table under forall must be refused at compile time."
              ' Added: item / element expressions whose value changes from one evaluation to the next (11^3 sequences through tab, concat, put, insert): refused or uniform; level 1 also against the gcc -O2 build.'
-             ' Rows of a table of tables (one of them null) receiving what an opaque function hands back; containers made for objects of one module never hold objects of another (C17\'s wrong-module programs). Iterated-row lock family (shared with C06); typed declarations through a forall iterator (9 types x 4 tables x 3 wrappers) leave the table uniform.',
+             ' Rows of a table of tables (one of them null) receiving what an opaque function hands back; containers made for objects of one module never hold objects of another (C17\'s wrong-module programs). Iterated-row lock family (shared with C06); typed declarations through a forall iterator (9 types x 4 tables x 3 wrappers) leave the table uniform. Round 5: refused-unchanged: 11 receivers (null row, null table, elements) x 5 mutators x 13 offending values: a refusal leaves every container as it was.',
         note="trusted: the Python list model; containers above 5 elements are not expanded; 48 tuple-declaration hash collisions are recorded findings (KNOWN_FINDINGS.txt)",
         design="DESIGN.md section 4, C09"),
     "C05": dict(
@@ -142,7 +142,7 @@ CHECKS = {
              "texts) must behave identically in the disturbed context and in an undisturbed twin. Thorough adds two more prefixes, all three routes for "
              "every text and chains of two rejected texts."
              ' Added: rejected texts declaring several functions or one function twice before the error; structured variables re-typed with another rank; texts that include a file (which redefines functions) successfully and fail later.'
-             ' Type-safe ($) variables holding tables and tuples assigned another structure by the rejected text. Rejected texts that give one variable two or three other types in a row; probe programs whose acceptance depends on each declared type.',
+             ' Type-safe ($) variables holding tables and tuples assigned another structure by the rejected text. Rejected texts that give one variable two or three other types in a row; probe programs whose acceptance depends on each declared type. Round 5: path expressions of include / import with side effects in rejected texts (recorded finding, narrow key).',
         note="trusted: differential twin; names introduced only by the rejected text are ignored, as the property allows",
         design="DESIGN.md section 4, C11"),
     "C12": dict(
@@ -155,7 +155,7 @@ CHECKS = {
              "chained statements - T1 = unparse(compile(S)) must be accepted in a twin context, both programs must give the same output, result, error "
              "and final variables/functions, and unparse(compile(T1)) must equal T1. Sources the parser rejects are outside the domain and are skipped "
              "(counted separately)."
-             ' Added to the corpus: loop orders with run-time reversed bounds, parenthesised receivers of member operators, module object programs, integer-valued decimals needing 17 digits, statements chained after typed declarations. Every string literal of length <= 2 over the 8 escapes, both quotes and 5 characters without escape.',
+             ' Added to the corpus: loop orders with run-time reversed bounds, parenthesised receivers of member operators, module object programs, integer-valued decimals needing 17 digits, statements chained after typed declarations. Every string literal of length <= 2 over the 8 escapes, both quotes and 5 characters without escape. Round 5: every byte value inside a constant; 30 argument shapes x 7 enclosed followers for print and put; INT64_MIN spellings; a rejected hand-written program is a harness error.',
         note="trusted: twin context as 'equivalent context'; the interactive save/load commands are driven by the C19 check",
         design="DESIGN.md section 4, C12"),
     "C13": dict(
@@ -169,7 +169,7 @@ CHECKS = {
              "command's file and stdin readers, against the same tokens one per line. Oracle: token stream (code, text), parse verdict and message, unparsed "
              "program and program output are equal to the reference delivery."
              ' Added routes for the long-line and line-length families: the reader of the include statement and the reader of the interactive mode.'
-             ' Lexemes aligned across byte 64 x 1023 (16, 65, 128 x 1023 in thorough) with blank padding. Byte content: sequences over EF BB BF (8 bytes in thorough) inside a literal at reader boundaries (line offsets around 1023 k, continuation lines) through bloc file and bloc -.',
+             ' Lexemes aligned across byte 64 x 1023 (16, 65, 128 x 1023 in thorough) with blank padding. Byte content: sequences over EF BB BF (8 bytes in thorough) inside a literal at reader boundaries (line offsets around 1023 k, continuation lines) through bloc file and bloc -. Round 5: bloc_parse_expression with a line end (LF, CRLF) after any token of 12 expressions.',
         note="trusted: the unsplit delivery as reference; // and # comments are line-anchored and are not joined onto long lines; a custom reader that passes CR through is compared with itself only",
         design="DESIGN.md section 4, C13"),
     "C02": dict(
@@ -186,7 +186,7 @@ CHECKS = {
              "assignment and through an expression of opaque type: typeof never changes while the constraint is active, the iterator accepts any type "
              "afterwards and the iterated table stays uniform."
              ' The operand-kind product (typed signatures x constant / variable / temporary / element / item / function result) goes through the same static-vs-dynamic comparison, and a second statement alphabet around tuples, tables of tuples and assignments that are compiled but never executed goes through unit-vs-stepwise.'
-             ' Every evaluated value is also checked against its own type (tuple items vs declaration, table elements vs element type, nulls included). `$` variables used as for / forall control variables keep their constraint.',
+             ' Every evaluated value is also checked against its own type (tuple items vs declaration, table elements vs element type, nulls included). `$` variables used as for / forall control variables keep their constraint. Round 5: plain-typed variables assigned null structured values; opaque operands of two-argument built-ins in quick.',
         note="trusted: Expression::type() under Context::parsing() is the compile-time type; typeof compared case-insensitively",
         design="DESIGN.md section 4, C02"),
     "C14": dict(
@@ -218,7 +218,7 @@ CHECKS = {
              "loaded and granted at that moment; import by path and include are refused there; the trusted context is never refused; and the "
              "verification module's creation log shows no object created by code compiled without a grant."
              ' Added: 29 constructor spellings (empty / blank / commented argument list, every arity, nested, upper case, inside expressions, conditions, loop headers, handlers, function bodies, return) x 4 situations without a valid grant x original / clone x loaded by import / by construction.'
-             ' The spelling sweep also runs in a context that was trusted and made untrusted again, and includes import by path expression and include, refused whatever is granted. Events on the trusted context (purge, purge working memory, include, import by path, constructor in a function / in a clone) must stay unrestricted.',
+             ' The spelling sweep also runs in a context that was trusted and made untrusted again, and includes import by path expression and include, refused whatever is granted. Events on the trusted context (purge, purge working memory, include, import by path, constructor in a function / in a clone) must stay unrestricted. Round 5: a second module whose name begins with the granted one.',
         note="trusted: the permission model; vmod (harness/vmod.cpp) stands for any module",
         design="DESIGN.md section 4, C16"),
     "C17": dict(
@@ -235,7 +235,7 @@ CHECKS = {
              "has exactly one destroy event. Ten programs offer a vmod2 object where vmod was compiled; no method or constructor of one module may run "
              "on an object of the other."
              ' Added: 11 carriers of a foreign object x 10 uses; loops refused at entry or dying in their body; 15 scripts + 4 interactive sessions through the bloc command (file, stdin, --out, -i) with every object destroyed exactly once by process end.'
-             ' Statements that return an object to a host that never collects it; the module logs foreign objects received as arguments; containers are checked against the module their type names. Re-evaluation of one use site with vmod then vmod2 objects (function with untyped parameter, loop over an undefined result); one statement with n object temporaries for 23 sizes up to 513 in 5 shapes.',
+             ' Statements that return an object to a host that never collects it; the module logs foreign objects received as arguments; containers are checked against the module their type names. Re-evaluation of one use site with vmod then vmod2 objects (function with untyped parameter, loop over an undefined result); one statement with n object temporaries for 23 sizes up to 513 in 5 shapes. Round 5: a method storing a new object into its own receiver variable (INOUT object argument); a callee that raises while holding objects.',
         note="trusted: the holder model; late destruction (before release) is allowed by the property and not flagged",
         design="DESIGN.md section 4, C17"),
     "C18": dict(
@@ -253,7 +253,7 @@ CHECKS = {
              "by Python's sqlite3 from the same database file: value and SQL type must match. Every method of the four modules is called with null / "
              "out-of-range / wrong-type-state arguments on fresh, closed and null objects. Every case runs in its own process under ASan+UBSan."
              ' Added: utf8 insert / concat of unicode strings (another one and itself) against Python, object arguments offered to utf8 (own, null, foreign through a function with a declared result type); files and read requests sized around the module buffer, long lines through readln; the sqlite3 prepared-statement path (bind, execute, fetch) against query().'
-             ' A prepared statement bound three times (values, nulls, values); a write without final newline in the quick file alphabet.',
+             ' A prepared statement bound three times (values, nulls, values); a write without final newline in the quick file alphabet. Round 5: INOUT variables in every state; sqlite3 statement states (prepared, stepped, closed under it, reopened, finalized); the cursor of a prepared statement as a state machine (all sequences of length <= 5 / 7).',
         note="trusted: Python codecs/sqlite3, the twin-file semantics; size arguments capped; plplot cannot be built here and is not claimed; two utf8 findings recorded (KNOWN_FINDINGS.txt)",
         design="DESIGN.md section 4, C18"),
     "C19": dict(
@@ -270,7 +270,7 @@ CHECKS = {
              "transcripts (prompts, echo, banner, Elapsed removed) print the same lines in the same order as the library's statement-at-a-time run; a saved "
              "session run again prints the same and saving the loaded session gives the same text."
              ' Added: 12 source bytes x 6 places through file / stdin / --out, option-like program arguments (-e, -i, --parse, --out=), a missing --out file is a violation, save / load sessions from the C12 statement programs.'
-             ' 33 compile errors at places computed from the text (after block / line comments, multi-line strings, tabs, blank lines, inside a loop) compared with the reported line:column. Argument vectors that repeat a word or contain the program operand (file, relative file, -); returned / -e strings containing %.',
+             ' 33 compile errors at places computed from the text (after block / line comments, multi-line strings, tabs, blank lines, inside a loop) compared with the reported line:column. Argument vectors that repeat a word or contain the program operand (file, relative file, -); returned / -e strings containing %. Round 5: -e with one word / many words / --out, expressions beginning with a minus sign, words after a complete expression; every console command word as a variable in 7 statement forms; calls of functions named like commands.',
         note="trusted: the library run as reference; the ASan build of the bloc executable; terminal colour codes are stripped",
         design="DESIGN.md section 4, C19"),
     "C15": dict(
@@ -287,7 +287,7 @@ CHECKS = {
              "single-token corruptions) is parsed through bloc_parse_executable and bloc_parse_expression, the context must still run a valid program, "
              "and no memory may remain after release."
              ' Added to the alphabet: host updates of a variable through its loaded pointer (assign literal / tabchar / null) followed by scripts reading it twice, handler-raises and forall-error executables, a tuple variable re-typed by a parse that is not executed, a table symbol registered by the host, trace flag and version calls.'
-             ' A parse error inside every kind of block (while, forall, if, else, begin, handler, function body, nested, empty while body) followed by a function definition. Invariant on every inspected value, including the caller\'s value after store_variable: a null value yields NULL data from every accessor that succeeds.',
+             ' A parse error inside every kind of block (while, forall, if, else, begin, handler, function body, nested, empty while body) followed by a function definition. Invariant on every inspected value, including the caller\'s value after store_variable: a null value yields NULL data from every accessor that succeeds. Round 5: a symbol registered again with another type (5 x 4 type pairs x 5 things in between); life of evaluated values of every expression kind after the expression is freed; every operator with 11 x 11 operand kinds as rejected text.',
         note="trusted: the handle/ownership model in vf/props/c15.py; ASan/LSan of clang 14 (a g++-only leak found by reading is recorded as fixed)",
         design="DESIGN.md section 4, C15"),
 }
